@@ -432,6 +432,9 @@ func (r *coreRun) exec(ev coreEvent) (rec map[string]any) {
 	if ev.Op == "HEmit" && len(r.handlers) > 0 {
 		ev.L = (ev.L-1)%len(r.handlers) + 1 // ev.L is a handler here
 	}
+	if n := len(r.loggers) - 1; (ev.Op == "LogNest" || ev.Op == "EachNew") && ev.A > n {
+		ev.A = (ev.A-1)%n + 1 // ev.A is a logger here
+	}
 	rec = map[string]any{"op": ev.Op, "l": ev.L, "k": ev.K, "a": ev.A, "b": ev.B}
 	defer func() {
 		if p := recover(); p != nil {
@@ -473,6 +476,25 @@ func (r *coreRun) exec(ev coreEvent) (rec map[string]any) {
 		is.SetDebugMode(ev.A == 1)
 	case "VrbMode":
 		is.SetVerboseMode(ev.A == 1)
+	case "LogNest":
+		r.logNest(l, ev, rec)
+	case "EachNew":
+		target := r.loggers[(ev.A-1)%(len(r.loggers)-1)+1]
+		// a child is created while the tree is being walked: from the callback of the first logger BELOW l if
+		// there is one (the walk is then inside l's subtree), else from l's own callback
+		below := 0
+		l.Each(func(x *slog.Entry, depth int) {
+			if depth > 0 {
+				below++
+			}
+		})
+		made := false
+		l.Each(func(x *slog.Entry, depth int) {
+			if !made && (depth > 0 || below == 0) {
+				made = true
+				ret = r.idOf(target.New())
+			}
+		})
 	case "CloseW":
 		closed := []int{}
 		if w := l.GetWriterBy(slog.Level(ev.A)); w != nil {
@@ -568,6 +590,77 @@ func (r *coreRun) exec(ev coreEvent) (rec map[string]any) {
 	}
 	r.observe(rec)
 	return rec
+}
+
+// coreNestVal is a value whose String method, called while the outer record is being formatted, issues a
+// record of its own through another (or the same) logger.
+type coreNestVal struct {
+	l  *slog.Entry
+	tm time.Time
+}
+
+func (v coreNestVal) String() string {
+	v.l.WriteThru(context.Background(), slog.InfoLevel, v.tm, 0, "nested inner record", slog.NewAttrs("k", 2))
+	return "nested-ok"
+}
+
+// tsFitsOf: the <layout, zone> pairs that explain the time field of a record with the fixed instant tm
+func (r *coreRun) tsFitsOf(p []byte, tm time.Time) [][]string {
+	fits := [][]string{}
+	text, err := tsExtract(strings.TrimSuffix(strings.TrimSuffix(shapeOf(p), "-invalid"), "-invalid"), p)
+	if err != nil {
+		return fits
+	}
+	for _, lay := range r.sc.TsLayouts {
+		if text == tm.Format(lay) {
+			fits = append(fits, []string{lay, "Own"})
+		}
+		if text == tm.UTC().Format(lay) {
+			fits = append(fits, []string{lay, "UTC"})
+		}
+	}
+	return fits
+}
+
+// logNest (re-entrancy): an outer record of logger l carrying a time-named attribute and a value that logs
+// through logger ev.A from inside its String method.
+func (r *coreRun) logNest(l *slog.Entry, ev coreEvent, rec map[string]any) {
+	m := r.loggers[(ev.A-1)%(len(r.loggers)-1)+1]
+	tmO := time.Date(2024, 3, 1, 2, 15, 7, 123456789, time.FixedZone("", 5*3600+1800))
+	tmI := time.Date(2031, 7, 9, 23, 44, 5, 987654321, time.FixedZone("", -(3*3600 + 1800)))
+	takeAll()
+	outcome := "ret"
+	func() {
+		defer func() {
+			if p := recover(); p != nil {
+				outcome = "panic: " + fmt.Sprint(p)
+			}
+		}()
+		l.WriteThru(context.Background(), slog.InfoLevel, tmO, 0, "nested outer record",
+			slog.NewAttrs("k", 1, "time", tmO.Add(-50*time.Hour), "zz", coreNestVal{m, tmI}, "zzz", 3))
+	}()
+	outer, inner := []map[string]any{}, []map[string]any{}
+	for _, e := range takeAll() {
+		if e.K != "w" {
+			continue
+		}
+		s := string(e.payload)
+		isInner := strings.Contains(s, "nested inner record")
+		isOuter := strings.Contains(s, "nested outer record")
+		tm := tmO
+		if isInner {
+			tm = tmI
+		}
+		o := map[string]any{"w": e.W, "shape": shapeOf(e.payload), "fits": r.tsFitsOf(e.payload, tm),
+			"whole": isInner != isOuter && strings.HasSuffix(s, "\n") && (isInner || strings.Contains(s, "nested-ok"))}
+		if isInner && !isOuter {
+			inner = append(inner, o)
+		} else {
+			outer = append(outer, o) // a payload mixing both counts as a (broken) outer record
+		}
+	}
+	rec["nest"] = map[string]any{"outer": outer, "inner": inner}
+	rec["outcome"] = outcome
 }
 
 var coreReSGR = regexp.MustCompile("\x1b\\[[0-9;]*m")
